@@ -25,6 +25,7 @@ func init() {
 		Rule{ID: "R08e", Doc: "expiry plumbing", Floor: 5, Run: r08e},
 		Rule{ID: "R02d", Doc: "the TC and other header bits are decoded from their RFC 1035 positions (the never-cache-truncated test reads the decoded bit; shared with C02)", Floor: 10, AllVariants: true, Run: r02d},
 		Rule{ID: "R07d", Doc: "an entry's times are read under its lock together with its payload (shared with C07)", Floor: 8, Run: r07d},
+		Rule{ID: "R08g", Doc: "an entry promoted from redis into memory keeps the timestamps the lookup returned", Floor: 2, Run: r08g},
 		Rule{ID: "R08f", Doc: "every redis SET carries the entry lifetime", Floor: 3, AllVariants: true, Run: r08f},
 	)
 }
